@@ -2,6 +2,10 @@
 # runs the thorough tier of the given properties one after the other (development aid; no evidence written)
 for p in "$@"; do
   start=$(date +%s)
-  ./check $p --tier thorough --no-evidence ${VERIF_WORKERS:+--workers $VERIF_WORKERS} 2>&1 | grep "^\[\|VIOLATION\|HARNESS\|KNOWN-FINDING\|NOTE\|^  system" | cut -c1-400
-  echo "=== $p thorough rc=$? wall=$(( $(date +%s) - start ))s"
+  out=$(mktemp)
+  ./check $p --tier thorough --no-evidence ${VERIF_WORKERS:+--workers $VERIF_WORKERS} > "$out" 2>&1
+  rc=$?
+  grep "^\[\|VIOLATION\|HARNESS\|KNOWN-FINDING\|NOTE\|^  system" "$out" | cut -c1-400
+  rm -f "$out"
+  echo "=== $p thorough rc=$rc wall=$(( $(date +%s) - start ))s"
 done
